@@ -21,7 +21,10 @@ def main(tier):
     total_beh = 0
     for part, cfg, nv, maxdim, sim, depth in parts:
         r, g, summ, devs, crashes = st_common.run_model(ev, part, cfg, bins, nv, maxdim, simulate=sim, depth=depth,
-                                                        gap_edges_per_state=12 if tier == "quick" else None)
+                                                        gap_edges_per_state=12 if tier == "quick" else None,
+                                                        # every operation is also run on two copies holding a live, valid
+                                                        # filtration cache (all simplices / ignoring infinite values)
+                                                        extra_env={"VF_LIVE_CACHE": "1"} if part == "bfs_v3_vals3" else None)
         if r.violation:
             p = vf.save_replay(PROP, part + "_model", {"tlc": r.violation})
             vf.violation(PROP, p)
